@@ -352,6 +352,75 @@ def fan_boundary(run, funcs, pid, sizes=(20, 40), nseeds=8):
                             'solver': 'concrete execution of the MIR + structural comparison', 'solver_s': 0.0})
 
 
+def prism_cut(run, funcs, pid, N=24):
+    """the real clip_by_plane on an N-gon prism whose whole top (N vertices, N > 16) is cut off by a horizontal plane: N new vertices, one per
+    side edge, written (cur, next, new plane); the result is a closed polytope - for the canonical and for seeded storage orders"""
+    import math
+    planes = [((0, 0, -1), (0, 0, 1)), ((0, 0, 1), (0, 0, 0))]
+    for k in range(N):
+        t = 2 * math.pi * k / N
+        planes.append(((-round(math.cos(t), 6), -round(math.sin(t), 6), 0), (round(math.cos(t), 6), round(math.sin(t), 6), 0)))
+    verts = []
+    for k in range(N):
+        a, b = 2 + k, 2 + (k + 1) % N
+        t = 2 * math.pi * (k + 0.5) / N
+        x, y = round(math.cos(t), 6), round(math.sin(t), 6)
+        verts.append(((0, a, b), (x, y, 1)))
+        verts.append(((1, b, a), (x, y, 0)))
+    p_new = len(planes)
+    for seed in (None, run.seed * 10 + 1, run.seed * 10 + 2):
+        vs = list(verts)
+        if seed is not None:
+            rng = random.Random(seed)
+            rng.shuffle(vs)
+            vs = [((d[r:] + d[:r]), l) for (d, l), r in zip(vs, [rng.randrange(3) for _ in vs])]
+        cell = mk_cell(planes, vs, p_new, (F(0), F(0), F(1, 4)))
+        new_plane = FR.half_space(Agg('DVec3', [F(0), F(0), F(-1)]), Agg('DVec3', [F(0), F(0), F(1, 2)]), some(7), none(), d=F(-1, 2), errb=F(1, 10 ** 13))
+        ov = {'Vertex::from_dual': lambda i, st, a, c: engine.make_struct('src/voronoi/convex_cell.rs', 'Vertex', loc=Agg('DVec3', [F(9)] * 3), dual=Agg('array', (a[0], a[1], a[2])), radius2=F(1)),
+              'convex_cell::ConvexCell::update_safety_radius': lambda i, st, a, c: UNIT}
+        interp = engine.new_interp(funcs, overrides=ov, max_visits=4000000)
+        name = engine.find_fn(funcs, r'convex_cell::<impl at [^>]*>::clip_by_plane$')
+        st = State()
+        st.heap[1] = cell
+        st.heap[2] = Agg('array', ())
+        st.heap[3] = engine.make_struct('src/voronoi/boundary.rs', 'SimulationBoundary', anchor=Opaque('anchor'), inverse_width=Opaque('iw'),
+                                        dimensionality=FR.dimv('ThreeD'), clipping_planes=Opaque('planes'))
+        outs = interp.exec_fn(st, name, [Ref(('H', 1)), new_plane, Ref(('H', 2)), Ref(('H', 3))], {})
+        run.add_functions(interp, funcs)
+        bad = None
+        if len(outs) != 1 or interp.panics:
+            bad = '%d normal paths, %d panics (%s)' % (len(outs), len(interp.panics), interp.panics[0][1][:60] if interp.panics else '')
+        else:
+            c2 = outs[0][0].heap[1]
+            cc = lambda v, nm: v.items[engine.field_index('src/voronoi/convex_cell.rs', 'ConvexCell', nm)]
+            vx = lambda v, nm: v.items[engine.field_index('src/voronoi/convex_cell.rs', 'Vertex', nm)]
+            tri = [tuple(vx(v, 'dual').items) for v in cc(c2, 'vertices').items]
+            newv = [t for t in tri if p_new in t]
+            kept = [t for t in tri if p_new not in t]
+            pairs = {}
+            for t in tri:
+                for a_, b_ in itertools.combinations(sorted(t), 2):
+                    pairs[(a_, b_)] = pairs.get((a_, b_), 0) + 1
+            if len(newv) != N or len(kept) != N or any(0 in t for t in tri):
+                bad = '%d new vertices and %d kept ones (expected %d and %d)' % (len(newv), len(kept), N, N)
+            elif any(v != 2 for v in pairs.values()):
+                bad = 'result is not a closed polytope: %d edges with a wrong multiplicity' % len([1 for v in pairs.values() if v != 2])
+            elif any(t[2] != p_new for t in newv) or {frozenset(t[:2]) for t in newv} != {frozenset((2 + k, 2 + (k + 1) % N)) for k in range(N)}:
+                bad = 'new vertices are not one per side edge, written (cur, next, new plane)'
+        if bad:
+            pl = {'kind': 'fan_boundary', 'n': N}
+            r = check_fan_native(pl)
+            what = '%s clip_by_plane cutting the top off a %d-gon prism (storage order seed %s): %s' % (pid, N, seed, bad)
+            if r:
+                run.violation(what + '; natively: ' + r, engine.save_replay(pid, pl))
+            else:
+                run.suspect.append(what + ' - the native prism scenario is built correctly')
+            break
+    run.obligations.append({'name': '%s clip_by_plane on a %d-gon prism (new face with %d > 16 edges), 3 storage orders, through the MIR: %d new vertices along the boundary cycle, closed polytope'
+                            % (pid, N, N, N), 'expect': 'unsat', 'verdict': 'sat' if [s for s in run.suspect if 'prism' in s] or [v for v in run.violations if 'prism' in v[0]] else 'unsat',
+                            'solver': 'concrete execution of the MIR + structural checks', 'solver_s': 0.0})
+
+
 def check_fan_native(p, profile='debug'):
     """a generator inside a ring of n others (n-sided prism cell) and one generator above it: the last clip removes the fan of n top vertices"""
     import math
